@@ -265,6 +265,8 @@ std::unique_ptr<Model> MainSolver::getModel() {
     if (status != s_True) { throw ApiException("Model cannot be created if solver is not in SAT state"); }
 
     OPENSMT_VERIF(verif::stopPoint(4));
+    // The option may have been switched on only after the check: the theory solvers have no model values yet
+    thandler->computeModel();
     ModelBuilder modelBuilder{logic};
     smt_solver->fillBooleanVars(modelBuilder);
     thandler->fillTheoryFunctions(modelBuilder);
